@@ -75,7 +75,10 @@ CLAIMS = {
          "exhaustive model checking of readiness invariants on real observations", "5 C08"),
  "C09": ("model_checking", "(a) TLC evaluates the Jury stability conditions on the specification's coefficient formulas for every window length "
          "1..512 (4096 thorough), one state per N; (b) recorded streams of the real views (Nyquist, step, noise; pairs with a common tail) for "
-         "N in 1..64 and chains are validated by Trace_Exp.tla: bounded finite output with a length-independent bound, early values fade to 1e-9.",
+         "N in 1..256 (512) and chains are validated by Trace_Exp.tla: bounded finite output with a length-independent bound, early values fade to 1e-9 "
+         "(random, quiet-after-loud, nine-decade, staircase, flat-then-movement and constant common tails, the tail scaled with N). Two normalised "
+         "ratios do not fade on a CONSTANT tail by their own defining formulas (LaguerreRSI; TrendFlex/ReFlex from N = 436): KNOWN-FINDINGS KF2, KF3, "
+         "attributed by the specification through the clause name; everything else is a VIOLATION.",
          "model checking of pole criteria over all N on the TLA+ coefficient formulas + trace validation of recorded long streams", "5 C09"),
  "C10": ("model_checking", "Product over PAIRS of histories (x, y) with three look-ups in the real behaviour tree: view(a x + b y) = a view(x) + b view(y) "
          "for four (a,b); homogeneity view(a x) = a view(x) for a in {-2, 3, 0, 1/3} as a two-table product; constant streams reproduced by the low-pass members.",
